@@ -19,7 +19,8 @@ def py_node(spec):
 
 def sx_node(spec):
     if spec[0] == 'list':
-        return [['some', list(spec[1])], 0, bool(spec[2])]
+        # the allowed numbers are a set: a value written twice means nothing more
+        return [['some', sorted(set(spec[1]))], 0, bool(spec[2])]
     return ['none', spec[1], bool(spec[2])]
 
 
@@ -31,9 +32,19 @@ def build(case):
     src = [py_node(s) for s in case['src']]
     tgt = [py_node(s) for s in case['tgt']]
     pats = []
+    how = case.get('_build')
+    only_absent = all(o in (None, [0]) for p in case['patterns'] for o in p['src'] + p['tgt'])
+    shared_s, shared_t = {}, {}
     for p in case['patterns']:
-        so = {i: list(o) for i, o in enumerate(p['src']) if o is not None}
-        to = {i: list(o) for i, o in enumerate(p['tgt']) if o is not None}
+        if how == 'exists-shared' and only_absent:
+            # the other public way to write the same patterns: existence flags, with ONE override dictionary object handed to
+            # every pattern (the constructor must not write into it)
+            pats.append(NodeExistence(src_exists=[o != [0] for o in p['src']], tgt_exists=[o != [0] for o in p['tgt']],
+                                      src_n_conn_override=shared_s, tgt_n_conn_override=shared_t))
+            continue
+        rev = how == 'reversed-keys'
+        so = {i: list(o) for i, o in sorted(enumerate(p['src']), reverse=rev) if o is not None}
+        to = {i: list(o) for i, o in sorted(enumerate(p['tgt']), reverse=rev) if o is not None}
         pats.append(NodeExistence(src_n_conn_override=so or None, tgt_n_conn_override=to or None))
     settings = MatrixGenSettings(src, tgt, excluded=[tuple(e) for e in case['excl']] or None,
                                  existence=NodeExistencePatterns(pats), max_conn_parallel=case['par'])
